@@ -282,12 +282,23 @@ def split_segments(rng, idx, maxsegs):
 
 def gen_plan(rng, nparts, sers=True):
     """collect every part (random order) interleaved with merges of two random live handles and
-    serialisation round trips, until one handle is left; then finalise"""
+    serialisation round trips, until one handle is left; then finalise.  Empty intermediate results
+    (IntermediateAggregationResults::default(), the seed of a fold) join at any point, on either side of a merge."""
     todo = list(range(nparts))
     rng.shuffle(todo)
     live, plan = [], []
+    nextra = nparts
+    if rng.random() < 0.2:           # a fold seeded with default(): the accumulator (left operand) starts empty
+        nextra += 1
+        plan.append({"op": "empty", "h": nextra})
+        live.append(nextra)
     while todo or len(live) > 1:
         can_merge = len(live) >= 2
+        if rng.random() < 0.06:
+            nextra += 1
+            plan.append({"op": "empty", "h": nextra})
+            live.append(nextra)
+            continue
         if todo and (not can_merge or rng.random() < 0.55):
             p = todo.pop()
             plan.append({"op": "collect", "h": p + 1, "part": p})
@@ -315,6 +326,11 @@ def gen_case(rng, cid, nmax=12, depth=2, tag="rand"):
     for c in cuts + [n]:
         parts.append(split_segments(rng, sorted(idx[prev:c]) if rng.random() < 0.7 else idx[prev:c], 3))
         prev = c
+    # partitions without any segment (an index that holds no document), in every position
+    if rng.random() < 0.3:
+        for _ in range(rng.choice([1, 1, 2])):
+            parts.insert(rng.randint(0, len(parts)), [])
+        nparts = len(parts)
     allidx = list(range(n))
     if rng.random() < 0.3:
         rng.shuffle(allidx)
@@ -397,6 +413,10 @@ def concretise(rng, g, cid, stripe):
         elif st["op"] == "ser":
             h = next(h for h, c in cover.items() if c == frozenset(st["h"]))
             plan.append({"op": "ser", "h": h})
+        elif st["op"] == "empty":
+            h = 1000 + len(plan)
+            cover[h] = frozenset()
+            plan.append({"op": "empty", "h": h})
     plan.append({"op": "final", "h": next(iter(cover))})
     allidx = list(range(len(docs)))
     return {"id": cid, "tag": f"tlc x{stripe}", "docs": docs, "parts": parts, "all": split_segments(rng, allidx, 3),
@@ -702,7 +722,18 @@ def regression_seeds():
           "req": [["t", dict(_TERMS, field="g", sub=[["h", ho]])]], "plan": plan2}
     fm = {"id": 900011, "tag": "seed fused multi-valued column", "docs": do, "parts": [[s3[0]], [s3[1]]], "all": s3, "query": "all",
           "req": [["t", dict(_TERMS, field="g", sub=[["h", dict(ho, field="v", interval=5)]])]], "plan": plan2}
-    return [f22, f23, f24, f25, fo] + fz, f13 + [fm]
+    # the empty intermediate result is neutral on both sides of merge_fruits: a fold seeded with default(), and a
+    # partition without segments collected first / in the middle / last
+    rq = [["s", {"k": "sum", "field": "w"}], ["t", dict(_TERMS, sub=[["m", {"k": "max", "field": "v"}]])]]
+    fe = [{"id": 900012, "tag": "seed empty left operand", "docs": _DOCS3, "parts": [[[0]], [[1, 2]]], "all": [[0, 1, 2]], "query": "all", "req": rq,
+           "plan": [{"op": "empty", "h": 9}, {"op": "collect", "h": 1, "part": 0}, {"op": "merge", "a": 9, "b": 1}, {"op": "collect", "h": 2, "part": 1},
+                    {"op": "merge", "a": 9, "b": 2}, {"op": "empty", "h": 8}, {"op": "merge", "a": 9, "b": 8}, {"op": "final", "h": 9}]},
+          {"id": 900013, "tag": "seed empty partitions", "docs": _DOCS3, "parts": [[], [[0]], [], [[1, 2]], []], "all": [[0, 1, 2]], "query": "all", "req": rq,
+           "plan": [{"op": "collect", "h": 1, "part": 0}, {"op": "collect", "h": 2, "part": 1}, {"op": "merge", "a": 1, "b": 2},
+                    {"op": "collect", "h": 3, "part": 2}, {"op": "collect", "h": 4, "part": 3}, {"op": "merge", "a": 3, "b": 4},
+                    {"op": "merge", "a": 1, "b": 3}, {"op": "collect", "h": 5, "part": 4}, {"op": "ser", "h": 5}, {"op": "merge", "a": 5, "b": 1},
+                    {"op": "final", "h": 5}]}]
+    return [f22, f23, f24, f25, fo] + fz + fe, f13 + [fm]
 
 
 def known_finding_runs(ctx):
